@@ -151,21 +151,21 @@ def run(ctx):
                 fm = dual_basis_jellium_model(grid, spinless, True, True, const)
                 add('jw_dual_basis_jellium', '(fermi_pauli_close %s %s %s)' % (EPS2, coq_fop(fm), coq_qop(jq)),
                     {'call': 'jordan_wigner_dual_basis_jellium', 'grid': [dim, repr(length), kind], 'scale': repr(np.asarray(scale).tolist()), 'spinless': spinless, 'include_constant': const}, key=(dim, repr(length), kind, spinless, const))
-            if dim == 3 and isinstance(scale, float):
-                geometry = [('H', (0.0, 0.0, 0.0)), ('H', (0.0, 0.0, 0.5))]
+    # the helper with a geometry (external potential): homonuclear, heteronuclear (different nuclear charges), one atom
+    species = ['H', 'He', 'Li', 'Be', 'O']
+    gcells = [(1, 3), (1, 4), (2, 2)] + ([(3, 2)] if not ctx.quick else []) + ([(1, 5), (2, (2, 3))] if not ctx.quick else [])
+    for dim, length in gcells:
+        for rep in range(N(2, 4)):
+            grid = of.Grid(dim, length, rng.choice([1.0, 2.0, 1.5]))
+            natoms = rng.choice([1, 2, 2, 3])
+            geometry = [(rng.choice(species), tuple(round(rng.uniform(-0.5, 0.5), 3) for _ in range(dim))) for _ in range(natoms)]
+            if natoms >= 2 and rng.random() < 0.7: geometry[-1] = (rng.choice([a for a in species if a != geometry[0][0]]), geometry[-1][1])
+            for spinless in (True, False):
+                if grid.num_points * (1 if spinless else 2) > N(8, 10): continue
                 jq = jordan_wigner_dual_basis_hamiltonian(grid, geometry, spinless, False)
                 fm = plane_wave_hamiltonian(grid, geometry, spinless, False, False)
                 add('jw_dual_basis_hamiltonian', '(fermi_pauli_close %s %s %s)' % (EPS2, coq_fop(fm), coq_qop(jq)),
-                    {'call': 'jordan_wigner_dual_basis_hamiltonian', 'grid': [dim, repr(length), kind], 'spinless': spinless}, key=(dim, repr(length), kind, spinless))
-    # the helper with a geometry (external potential) on a small cubic cell
-    for spinless in (True, False):
-        grid = of.Grid(3, 2, 1.0) if not ctx.quick or spinless else None
-        if grid is None: continue
-        geometry = [('H', (0.0, 0.0, 0.0)), ('H', (0.0, 0.0, 0.5))]
-        jq = jordan_wigner_dual_basis_hamiltonian(grid, geometry, spinless, False)
-        fm = plane_wave_hamiltonian(grid, geometry, spinless, False, False)
-        add('jw_dual_basis_hamiltonian', '(fermi_pauli_close %s %s %s)' % (EPS2, coq_fop(fm), coq_qop(jq)),
-            {'call': 'jordan_wigner_dual_basis_hamiltonian', 'grid': [3, 2, 'f'], 'spinless': spinless}, key=('geom', spinless))
+                    {'call': 'jordan_wigner_dual_basis_hamiltonian', 'grid': [dim, repr(length)], 'geometry': repr(geometry), 'spinless': spinless}, key=(dim, repr(length), repr(geometry), spinless))
     res = coq_eval_bools(ctx, 'jw', IMPORTS, items, chunk=40)
     judge(ctx, res, meta, 'C04')
 
